@@ -91,8 +91,7 @@ def oracle_a(camp, p, conforming):
     if not conforming or fatal:
         return
     if r.status != "OK" or r.has_error():
-        camp.count("conforming-but-rejected(->C01)")
-        return
+        camp.count("conforming-but-rejected(->C01)")   # the structural invariants below are about the input, not about the verdict
     if unrec:
         camp.fail("C07|A|unrecognised-pop-in-conforming-file", "%d tokens were popped as unrecognised" % unrec, case)
     exp = expected_statements(p)
